@@ -45,7 +45,8 @@ ASSUMPTIONS = [
     "mechanism classifier `analytical-missing-hpp-floor` re-runs the analytical evaluator with hpp clamped at 0.1 eV inside "
     "anal_grad.w_der (monkey-patch in the worker, nothing on disk) and requires that this removes the discrepancy",
 ]
-REQUIRED_MONITORS = ["fd_dirs_compared", "evaluator_pairs_compared", "padding_rows_checked"]
+REQUIRED_MONITORS = ["fd_dirs_compared", "evaluator_pairs_compared", "padding_rows_checked", "excited_dirs_compared",
+                     "axis_aligned_dirs_compared", "sp2_dirs_compared"]
 CASE_TIMEOUT = 600.0
 BUDGET_S = {"quick": float(os.environ.get("VERIF_BUDGET_QUICK", 200)), "thorough": float(os.environ.get("VERIF_BUDGET_THOROUGH", 1700))}
 
@@ -744,15 +745,22 @@ def summarize(cases, results, report):
             continue
         if (r.get("monitors") or {}).get("fd_dirs_compared", 0) > 0:
             seen[c["method"]].add(tuple(c["pair"]))
-    clean = {}
+    # worst margins over cases without a violation, split by whether the case sits inside the cone of the known
+    # frame-rotation singularity (axis-aligned on +-x with cone < 4.6e-4 rad: sub-threshold footprints of that defect
+    # live there) or not
+    clean, clean_cone = {}, {}
     from vlib import verdict
     for c, r in zip(cases, results):
         if not r or r.get("violations"):
             continue
+        o = c.get("orient", {})
+        incone = o.get("kind") == "align" and o.get("axis") in ("+x", "-x") and o.get("cone", 1.0) < 4.6e-4
+        tgt = clean_cone if incone else clean
         for k, v in (r.get("margins") or {}).items():
-            if v is not None and not (v <= clean.get(k, {"worst": -1.0})["worst"]):
-                clean[k] = {"worst": v, "case": verdict.case_id(c)}
-    return {"worst_margin_over_cases_without_violation": clean, "pair_matrix": {m: {"pairs_compared": len(seen[m]), "pairs_total": tot[m],
+            if v is not None and not (v <= tgt.get(k, {"worst": -1.0})["worst"]):
+                tgt[k] = {"worst": v, "case": verdict.case_id(c)}
+    return {"worst_margin_over_cases_without_violation": clean,
+            "worst_margin_over_nonviolating_cases_inside_x_pole_cone": clean_cone, "pair_matrix": {m: {"pairs_compared": len(seen[m]), "pairs_total": tot[m],
                                 "not_compared": sorted("%d-%d" % p for p in
                                                        (set((max(a, b), min(a, b)) for a, b in _pairs(m)) - seen[m]))[:60]}
                             for m in METHODS}}
